@@ -784,6 +784,9 @@ pub struct TensorStore {
 impl TensorStore {
     const DEFAULT_SHARD_COUNT: usize = 16;
 
+    /// Key prefix of the reserved entries that carry key-less slabs in compressed snapshots.
+    const SLAB_ENTRY_PREFIX: &'static str = "\u{0}slab:";
+
     /// Creates a new empty store.
     #[must_use]
     pub fn new() -> Self {
@@ -1215,6 +1218,26 @@ impl TensorStore {
             entries.push(CompressedEntry { key, fields });
         }
 
+        // State that is not reachable through keys travels as reserved entries.
+        for (name, bytes) in [
+            (
+                "relations",
+                bitcode::serialize(&self.router.relations.snapshot())?,
+            ),
+            ("graph", bitcode::serialize(&self.router.graph.snapshot())?),
+            ("blobs", bitcode::serialize(&self.router.blobs.snapshot())?),
+        ] {
+            let mut fields = std::collections::BTreeMap::new();
+            fields.insert(
+                "bytes".to_string(),
+                CompressedValue::Scalar(CompressedScalar::Bytes(bytes)),
+            );
+            entries.push(CompressedEntry {
+                key: format!("{}{name}", Self::SLAB_ENTRY_PREFIX),
+                fields,
+            });
+        }
+
         let header = Header::new(config, entries.len() as u64);
         let snapshot = CompressedSnapshot { header, entries };
 
@@ -1248,6 +1271,23 @@ impl TensorStore {
         let store = Self::new();
 
         for entry in snapshot.entries {
+            if let Some(slab) = entry.key.strip_prefix(Self::SLAB_ENTRY_PREFIX) {
+                use tensor_compress::format::CompressedScalar;
+                if let Some(CompressedValue::Scalar(CompressedScalar::Bytes(bytes))) =
+                    entry.fields.get("bytes")
+                {
+                    match slab {
+                        "relations" => store
+                            .router
+                            .relations
+                            .replace_with(bitcode::deserialize(bytes)?),
+                        "graph" => store.router.graph.replace_with(bitcode::deserialize(bytes)?),
+                        "blobs" => store.router.blobs.replace_with(bitcode::deserialize(bytes)?),
+                        _ => {},
+                    }
+                }
+                continue;
+            }
             let mut tensor = TensorData::new();
 
             for (field_name, value) in entry.fields {
